@@ -278,8 +278,27 @@ def values_clean(seed, nops=16, family=None):
             write(p, h, t)
         if r.random() < 0.75:
             _pace(r, lines, peers)
+    causal = []
+    if r.random() < 0.5:
+        # causal follow-up (no drain in between, yet not a conflict): a peer writes a component right
+        # after the frame in which it applied another peer's write of that component (defect S22
+        # before its repair). The oracle demands the second value only if the trace shows that the
+        # first one had been received by then (see protoprops._c02_oracle).
+        lines.append('DRAIN 60')
+        h, t = r.choice(ents), r.choice([x for x in types if x != 3] or types)
+        q, P = r.sample(peers, 2)
+        val += 2
+        v1, v2 = (val - 1) % 3 if t == 3 else val - 1, val % 3 if t == 3 else val
+        lines.append('OP %d write %d %d %d' % (q, h, t, v1))
+        lines.append('FRAME %d 2' % q)
+        if q != 0 and P != 0:
+            lines.append('FRAME 0 2')
+        lines.append('FRAME %d 1' % P)
+        lines.append('OP %d write %d %d %d' % (P, h, t, v2))
+        last_value[(h, t)] = v2
+        causal.append(('%d' % h, t, str(v1), P))
     lines.append('DRAIN 80')
-    return '\n'.join(lines) + '\n', dict(last_value={('%d' % h, t): str(v) for (h, t), v in last_value.items()}, types=types)
+    return '\n'.join(lines) + '\n', dict(last_value={('%d' % h, t): str(v) for (h, t), v in last_value.items()}, types=types, causal=causal)
 
 
 def single_writer(seed, nops=14):
